@@ -354,13 +354,13 @@ def wf_pass(run, cases, model, items):
     sel = []
     for idx, mode, d in items:
         m = model.get(str(idx))
-        if mode != "l" or not m or not m["info"] or int(m["info"]["sum"]) > 3000:
+        if mode != "l" or not m or not m["info"] or int(m["info"]["sum"]) > (250 if run.tier == "quick" else 1500):
             continue
         if any(ch in d for ch in "\n\r") or d != d.strip() or not d:
             continue
         sel.append((idx, d))
-    if run.tier == "quick":
-        sel = sel[:400]
+    # corpus/handmade/boundary cases come first in the case list; the verified checker is quadratic in the dump size
+    sel = sel[:120] if run.tier == "quick" else sel[:3000]
     wcases = [("synthetic:%r" % d, ["filter 10 0", "filter 11 0", "filter 12 0", "filter 15 0", "src synthetic " + d], "synthetic") for idx, d in sel]
     res = K1.run_cases(run, wcases, exe1, drv1)
     for k, (idx, d) in enumerate(sel):
